@@ -3461,6 +3461,11 @@ func (v *binaryExprVisitor) checkAndPrepare(p *printer) bool {
 		} else if _, ok := e.Left.Data.(*js_ast.ENumber); ok {
 			// Negative numbers are printed using a unary operator
 			v.leftLevel = js_ast.LCall
+		} else if inlined, ok := e.Left.Data.(*js_ast.EInlinedEnum); ok {
+			// An inlined enum value may be a negative number too
+			if _, ok := inlined.Value.Data.(*js_ast.ENumber); ok {
+				v.leftLevel = js_ast.LCall
+			}
 		} else if p.options.MinifySyntax {
 			// When minifying, booleans are printed as "!0 and "!1"
 			if _, ok := e.Left.Data.(*js_ast.EBoolean); ok {
